@@ -285,18 +285,28 @@ CHECKS = {
             "(the default operator.eq).",
             "Lean 4 proof over a hand-written model, composed with the C06/C08 models + trace refinement + oracle"),
     "C07": ("full",
-            "Lean theorems C07.*: SPEA2 returns exactly k distinct input objects, all non-dominated when #nd<=k, only non-dominated when #nd>=k (incl. the "
-            "truncation invariant spea2_to_remove_distinct), for every density/distance value; NSGA-III niching/selNSGA3: exactly k distinct input objects, earlier "
-            "fronts whole, niche balance, termination, for every shuffle tape; uniform_reference_points: C(M+p-1,p) distinct simplex points incl. scaling; association "
-            "= argmin of the distance to the reference line (over R); memory = order-independent monotone min/max; quick-select terminates on every pivot tape; normalisation (ideal point, extreme points, intercepts with all fallbacks) "
+            "Lean theorems C07.*: SPEA2 returns exactly k distinct input objects, all non-dominated when #nd<=k, only non-dominated when #nd>=k, for every "
+            "density value and every matrix of computed squared distances, overflowed (+inf) entries included (spea2V_len/sub_perm/all_nd_when_few/only_nd_when_many; "
+            "truncation invariants spea2_to_remove_distinct for finite entries, spea2_to_remove_overflow: only position 0 can repeat, spea2_deletion_loop: the "
+            "position-by-position deletion still removes one element per entry); the quick-select returns the order statistic (randomizedSelect_correct: on every "
+            "pivot tape it terminates and returns entry floor(i) of the sorted sub-array; permutation invariant; reads only the integer part of its index); "
+            "selSPEA2E = strengths, raw fitness, squared distances, quick-select and densities computed by the model from weights and weighted values "
+            "(spea2_e2e_spec/density/terminates); NSGA-III niching/selNSGA3: exactly k distinct input objects, earlier "
+            "fronts whole, niche balance, termination, for every shuffle tape; selNSGA3E = the C04 sort models + -wvalues + normalisation + association + niching "
+            "(nsga3_e2e_spec incl. Pareto-depth priority, nsga3_e2e_terminates); uniform_reference_points: C(M+p-1,p) distinct simplex points incl. scaling; association "
+            "= argmin of the distance to the reference line (over R); memory = order-independent monotone min/max; normalisation (ideal point, extreme points, intercepts with all fallbacks) "
             "modelled with positive denominators and translation invariance proved. "
-            "Correspondence through the compiled driver on implementation-captured fronts, association and densities; the statement clauses are recomputed independently "
+            "Correspondence through the compiled driver end to end (spea2e: weights, weighted values and recorded pivot draws in, selection out; nsga3e: weighted values, "
+            "reference points, solve answer and recorded shuffles in, selection out) and stage by stage on implementation-captured fronts, association, distances and densities "
+            "(all magnitudes, incl. values j*1e150..1e300 whose squared distances overflow); the statement clauses are recomputed independently "
             "as oracle (brute-force ranks, perpendicular distance, balance from the returned selection).",
             TB + "the normalisation is modelled (ideal_min, extreme_argmin, intercepts_cases, intercepts_pos, norm_denominator_pos in full for the code after fix F21, "
             "association_translation_invariant) with numpy.linalg.solve as a parameter (any solve: the acceptance test guards its answer); the argmin theorem is over R, "
-            "correspondence with tolerance 1e-9, near-ties compared on distances only; pareto_fronts are taken from the real sort (proved in C04). SPEA2 fits values are "
-            "read from the running frame (theorems hold for any).",
-            "Lean 4 proof over hand-written models (loop invariants for truncation and niching) + tape-replay correspondence + oracle"),
+            "correspondence with tolerance 1e-9, near-ties compared on distances only (nsga3f/nsga3e lines are emitted for calls without a near-tie). The end-to-end SPEA2 model is exact "
+            "arithmetic and is compared only on inputs whose float arithmetic is exact (decided from the input alone); for all other magnitudes the model is driven with the float "
+            "distances (recomputed with the code's operations, cross-checked against the matrix in the implementation's frame) and the frame's line-759 values (theorems hold for any). "
+            "K = sqrt(N) is represented by floor(sqrt N) (quickselect_floor).",
+            "Lean 4 proof over hand-written models (loop invariants for truncation, niching, Hoare partition) + tape-replay correspondence + oracle"),
     "C14": ("partial",
             "Lean theorems over Core/CmaElitist.lean for all inputs: elitism of both (1+lambda) strategies over any history (elitist_never_worse, "
             "active_elitist_never_worse), psucc in [0,1] / sigma>0 over any history (psucc_sigma_history, active_psucc_sigma_history, mo_psucc_sigma), "
